@@ -263,8 +263,10 @@ def plan(tier):
         ]
     return [
         (trees(4, 1), FORMS, 2, ('adjacent',), True),
-        (trees(2, 2), FORMS, 1, ('adjacent', 'separated'), True),
-        (trees(2, 3), ('sib', 'up', 'url'), 1, ('adjacent',), False),
+        (trees(2, 2), ('sib', 'up', 'sys'), 2, ('adjacent', 'separated'), True),
+        (trees(2, 2), FORMS, 1, ('adjacent',), False),
+        (trees(1, 3), FORMS, 1, ('adjacent', 'separated'), False),
+        (trees(2, 3), ('sib', 'up'), 1, ('adjacent',), False),
     ]
 
 
